@@ -556,6 +556,7 @@ func (fx *fctx) callStatic(st *State, fn *types.Func, recvExpr ast.Expr, sel *ty
 			for _, o := range e.Obls[n0:] {
 				if !o.Canary {
 					o.Advisory = true
+					o.Inlined = true
 				}
 			}
 		}
